@@ -39,6 +39,10 @@ pub struct Profile {
     /// data blocks with hundreds of restart intervals / large hash indexes / multi-block
     /// filters exist (the usual universe of <= 40 keys never fills a 4 KiB block)
     pub bulk_prelude: bool,
+    /// a third of the runs behave like one real deployment of leveled compaction: one fixed
+    /// (l0 threshold, table target size, ratio) for the whole run, many keys, long histories of
+    /// writes / flushes / leveled compactions only - this is what grows deep multi-table levels
+    pub leveled_focus: bool,
 }
 
 pub const W_WRITE: usize = 0;
@@ -88,6 +92,7 @@ impl Profile {
             wild_weak_deletes: false,
             shared_blob_prelude: false,
             bulk_prelude: false,
+            leveled_focus: false,
         }
     }
 }
@@ -602,12 +607,22 @@ pub fn gen_op(
 pub fn gen_run(property: &str, seed: u64, p: &Profile) -> RunSpec {
     let mut r = Rng::new(seed);
     let cfg = gen_cfg(&mut r, p);
+    let focus = p.leveled_focus && r.chance(1, 3);
     let span = if r.chance(1, 4) { 36 } else { 10 };
     let nkeys = 4 + r.usize(span);
     let keys = if p.fifo {
         vec![Bytes(b"f000000".to_vec())]
     } else {
         gen_keys(&mut r, nkeys)
+    };
+    let keys = if focus && !p.fifo && keys.len() < 24 {
+        let mut ks: std::collections::BTreeSet<Bytes> = keys.into_iter().collect();
+        for k in gen_keys(&mut r, 30) {
+            ks.insert(k);
+        }
+        ks.into_iter().collect()
+    } else {
+        keys
     };
     let once = if p.weak_deletes || p.once_keys_write_once {
         let n_once = if p.weak_deletes { 1 + r.usize(3) } else { 2 + r.usize(5) };
@@ -617,6 +632,26 @@ pub fn gen_run(property: &str, seed: u64, p: &Profile) -> RunSpec {
     };
     // swarm: disable a random subset of optional operation kinds for this run
     let mut weights = p.w;
+    let mut fixed_leveled: Option<(u8, u64, f32)> = None;
+    let mut n_ops_override: Option<usize> = None;
+    if focus {
+        fixed_leveled = Some((
+            1 + r.below(4) as u8,
+            *r.pick(&[64u64, 128, 256, 512, 1024]),
+            *r.pick(&[2.0f32, 2.0, 10.0]),
+        ));
+        weights = [0; 18];
+        weights[W_WRITE] = 40;
+        weights[W_BATCH] = 10;
+        weights[W_FLUSH_ACTIVE] = 14;
+        weights[W_LEVELED] = 20;
+        weights[W_ROTATE] = 2;
+        weights[W_REOPEN] = 1;
+        weights[W_SNAP_OPEN] = p.w[W_SNAP_OPEN].min(2);
+        weights[W_SNAP_CLOSE] = p.w[W_SNAP_CLOSE].min(2);
+        weights[W_SCAN] = p.w[W_SCAN].min(3);
+        n_ops_override = Some(60 + r.usize(80));
+    }
     for (i, w) in weights.iter_mut().enumerate() {
         if i != W_WRITE && i != W_FLUSH_ACTIVE && *w > 0 && r.chance(1, 5) {
             *w = 0;
@@ -627,7 +662,10 @@ pub fn gen_run(property: &str, seed: u64, p: &Profile) -> RunSpec {
         // while DESIGN 6 item 9 was an open finding)
         weights[W_INGEST] = 0;
     }
-    let n_ops = p.min_ops + r.usize(p.max_ops - p.min_ops + 1);
+    let n_ops = match n_ops_override {
+        Some(n) => n,
+        None => p.min_ops + r.usize(p.max_ops - p.min_ops + 1),
+    };
     let mut st = GenState {
         next_value_id: 0,
         disc: Discipline::default(),
@@ -673,7 +711,12 @@ pub fn gen_run(property: &str, seed: u64, p: &Profile) -> RunSpec {
         ops.push(Op::FlushActive { wm: Wm::Zero });
     }
     for _ in 0..n_ops {
-        let op = gen_op(&mut st, &mut r, &cfg, &keys, &once, p, &weights);
+        let mut op = gen_op(&mut st, &mut r, &cfg, &keys, &once, p, &weights);
+        if let (Some((l0f, tf, rf)), Op::Leveled { l0, target, ratio, .. }) = (fixed_leveled, &mut op) {
+            *l0 = l0f;
+            *target = tf;
+            *ratio = rf;
+        }
         st.disc.on_op(&op);
         ops.push(op);
     }
